@@ -1,0 +1,114 @@
+//! Verification probes: compiled only with `--cfg num_bigint_verif`.
+//!
+//! Hit counters at branch points, a multiply-accumulate work counter and read-only views of
+//! the private representation.  Nothing here influences any result; with the cfg flag off
+//! none of it is compiled.
+
+use core::sync::atomic::{AtomicU64, Ordering};
+
+/// Number of probe slots.
+pub const N: usize = 48;
+
+/// Names of the probe slots, indexed by probe id.
+pub const NAMES: [&str; N] = [
+    "add_asm_entered",          // 0
+    "add_asm_skipped",          // 1
+    "add_asm_carry_out",        // 2
+    "add_tail_digits",          // 3
+    "add_hi_propagate",         // 4
+    "add_hi_ripple_gt1",        // 5
+    "add_carry_out_of_slice",   // 6
+    "sub_asm_entered",          // 7
+    "sub_asm_borrow_out",       // 8
+    "sub_hi_propagate",         // 9
+    "sub_hi_ripple_gt1",        // 10
+    "sub_underflow_borrow",     // 11
+    "sub_underflow_b_hi",       // 12
+    "sub_ref_val_lo_borrow",    // 13
+    "mac3_long",                // 14
+    "mac3_half_karatsuba",      // 15
+    "mac3_karatsuba",           // 16
+    "mac3_toom3",               // 17
+    "karatsuba_mid_plus",       // 18
+    "karatsuba_mid_minus",      // 19
+    "karatsuba_mid_nosign",     // 20
+    "toom3_negative_component", // 21
+    "mac3_strip_low_zeros",     // 22
+    "mac_digit_carry_hi",       // 23
+    "div_refine_decrement",     // 24
+    "div_a0_eq_b0",             // 25
+    "div_add_back",             // 26
+    "div_shift_zero",           // 27
+    "div_shift_nonzero",        // 28
+    "monty_row_carry",          // 29
+    "monty_final_sub",          // 30
+    "monty_final_rem",          // 31
+    "plain_modpow_zero_digit",  // 32
+    "radix_big_base_path",      // 33
+    "radix_pow2_aligned",       // 34
+    "radix_pow2_inexact",       // 35
+    "float_sticky_lower_digit", // 36
+    "root_guess_f64",           // 37
+    "root_guess_scaled",        // 38
+    "root_bits_le_n",           // 39
+    "fixpoint_climb",           // 40
+    "fixpoint_descend",         // 41
+    "fixpoint_saturate",        // 42
+    "from_radix_chunk",         // 43
+    "root_guess_pow2",          // 44
+    "reserved45",               // 45
+    "reserved46",               // 46
+    "reserved47",               // 47
+];
+
+#[allow(clippy::declare_interior_mutable_const)]
+const Z: AtomicU64 = AtomicU64::new(0);
+
+/// Hit counters.
+pub static HITS: [AtomicU64; N] = [Z; N];
+
+/// Sum of the row lengths passed to the multiply-accumulate row routine.
+pub static MAC_WORK: AtomicU64 = AtomicU64::new(0);
+
+/// Count one hit of probe `id`.
+#[inline]
+pub fn hit(id: usize) {
+    HITS[id].fetch_add(1, Ordering::Relaxed);
+}
+
+/// Current counter values.
+pub fn snapshot() -> [u64; N] {
+    let mut out = [0u64; N];
+    for (o, h) in out.iter_mut().zip(HITS.iter()) {
+        *o = h.load(Ordering::Relaxed);
+    }
+    out
+}
+
+/// Reset all counters.
+pub fn reset() {
+    for h in HITS.iter() {
+        h.store(0, Ordering::Relaxed);
+    }
+    MAC_WORK.store(0, Ordering::Relaxed);
+}
+
+/// The native digit type.
+#[cfg(target_pointer_width = "64")]
+pub type Digit = u64;
+/// The native digit type.
+#[cfg(target_pointer_width = "32")]
+pub type Digit = u32;
+
+/// Read-only view of a `BigUint`'s private representation: (digits incl. any trailing zeros,
+/// capacity).  Used for state keys and diagnostics only.
+pub fn raw_biguint(x: &crate::BigUint) -> (&[Digit], usize) {
+    use crate::biguint::IntDigits;
+    (x.digits(), x.capacity())
+}
+
+/// Read-only view of a `BigInt`'s private representation.
+pub fn raw_bigint(x: &crate::BigInt) -> (crate::Sign, &[Digit], usize) {
+    use crate::biguint::IntDigits;
+    (x.sign(), x.digits(), x.capacity())
+}
